@@ -107,7 +107,9 @@ func (c17) Build(tier string, seed uint64) []any {
 		for _, pk := range []string{"nil", "default", "generic-garbage", "foreign"} {
 			for _, fr := range []string{"ok", "zero", "empty", "short", "short1", "short2", "short3", "ok+short", "ok+short1", "ok+empty", "nilpd", "nilinfo"} {
 				for _, geo := range [][6]int{{8, 8, 8, 8, 1, 0}, {7, 5, 16, 12, 1, 0}, {5, 4, 8, 8, 3, 0}, {0, 5, 8, 8, 1, 0}, {5, 0, 16, 16, 1, 1}, {4, 4, 8, 8, 0, 0}, {4, 4, 8, 8, 2, 0}, {4, 4, 8, 8, 4, 0},
-					{4, 4, 0, 0, 1, 0}, {4, 4, 1, 1, 1, 0}, {4, 4, 32, 32, 1, 0}, {4, 4, 16, 17, 1, 0}, {4, 4, 8, 0, 1, 0}, {65535, 1, 8, 8, 1, 0}, {4, 4, 16, 16, 5, 0}, {3, 3, 24, 24, 1, 0}, {4, 4, 32, 32, 4, 0}, {2, 2, 64, 64, 3, 0}, {2, 2, 16, 16, 9, 0}, {3, 2, 16, 8, 1, 0}} {
+					{4, 4, 0, 0, 1, 0}, {4, 4, 1, 1, 1, 0}, {4, 4, 32, 32, 1, 0}, {4, 4, 16, 17, 1, 0}, {4, 4, 8, 0, 1, 0}, {65535, 1, 8, 8, 1, 0}, {4, 4, 16, 16, 5, 0}, {3, 3, 24, 24, 1, 0}, {4, 4, 32, 32, 4, 0}, {2, 2, 64, 64, 3, 0}, {2, 2, 16, 16, 9, 0}, {3, 2, 16, 8, 1, 0},
+					// sample counts whose product with the bytes per sample wraps in 16 bits
+					{1, 1, 16, 16, 32769, 0}, {1, 1, 16, 16, 32775, 0}, {1, 1, 24, 24, 21846, 0}, {1, 1, 32, 32, 16385, 0}, {1, 1, 64, 64, 8193, 0}, {1, 1, 16, 16, 65535, 0}, {1, 2, 16, 16, 32768, 0}, {1, 1, 8, 8, 65535, 0}} {
 					k++
 					if !th && gen.Mix(seed, 9, uint64(k))%3 != 0 {
 						continue
